@@ -373,6 +373,38 @@ func runCode(e *env, o codeOpts) {
 	}, func() []*tok { return mine }, mustRestore)
 }
 
+// ---------------------------------------------------------------- replay of a redeemed code under fault
+
+// runCodeReplay: the request under fault is the replay of an already redeemed code. The handler swallows
+// revocation errors there (it answers invalid_grant with a hint); C18 demands the refusal, no tokens and
+// fail-closed behaviour. That the family is revoked is C01's clause and is only demanded of the clean replay.
+func runCodeReplay(e *env, pairs bool) {
+	e.bystander()
+	code, _, err := e.w.AuthorizeCode("c1", []string{"offline", "photos"}, nil)
+	zz.Assume(err == nil)
+	resp, err := e.redeem(code, "")
+	zz.Assume(err == nil)
+	at0, rt0 := e.add(resp, 0)
+
+	e.fs.RevokeKinds = kindsAll
+	pre := TakeSnap(e.fs.MemoryStore)
+	e.arm(pairs)
+	resp, err = e.redeem(code, "")
+	e.fs.Disarm()
+	zz.Assert(err != nil, e.name+": a credential is honoured at most once")
+	v := e.afterFault(pre, resp, err, true)
+	if len(v.faults) == 0 {
+		zz.Assert(v.errName == "invalid_grant", e.name+": the replay is answered invalid_grant")
+		zz.Assert(!e.active(at0) && (rt0 == nil || !e.active(rt0)), e.name+": the replay kills every token of the grant")
+	}
+	e.wait()
+	resp, err = e.redeem(code, "")
+	zz.Observe("replay.err", world.ErrName(err))
+	zz.Assert(world.ErrName(err) == "invalid_grant" && noTokens(resp), e.name+": the replay is answered invalid_grant")
+	zz.Assert(!e.active(at0) && (rt0 == nil || !e.active(rt0)), e.name+": the replay kills every token of the grant")
+	e.sweep("after the clean replay")
+}
+
 // ---------------------------------------------------------------- refresh flow
 
 // grant0 creates the grant of c1 by the code flow and returns its first pair.
@@ -408,12 +440,24 @@ func (e *env) family() []*tok {
 func runRefresh(e *env, pairs bool) {
 	e.bystander()
 	_, rt0 := e.grant0([]string{"offline", "photos"})
+	if zz.Thorough() && !pairs && zz.Choice("depth", 2) == 1 {
+		// one clean rotation first: the token under test is a second-generation token
+		p, _, err := e.refresh(rt0)
+		zz.Assume(err == nil)
+		rt0 = p.rt
+		e.sweep("prefix")
+	}
 
+	// a store may also (spuriously) report the presented token as inactive; the contract makes it return the record then
+	e.fs.RefreshGetKinds = kindsRead | kInactive
 	pre := TakeSnap(e.fs.MemoryStore)
 	e.arm(pairs)
 	resp, err := e.w.Refresh("c1", rt0.val)
 	v := e.afterFault(pre, resp, err, true)
 	e.serialHint(v)
+	if len(v.faults) > 0 && v.faults[0].Kind == kInactive && v.faults[0].Op == "GetRefreshTokenSession" {
+		zz.Cover(e.name+":store-reports-inactive", true)
+	}
 
 	first := &presentation{ok: err == nil, errName: v.errName}
 	if err == nil {
